@@ -517,6 +517,27 @@ pub fn run(cfg: &Cfg) -> Report {
             CaseResult::Harness(e) => stats.inconclusive.push(format!("harness: {e} on {}", p.label)),
         }
     }
+    // sanitizer passes (thorough tier): a sample of the same cases under AddressSanitizer and under
+    // valgrind memcheck. The recursion-depth classes are left out: sanitizer stack frames are larger,
+    // and a stack overflow is judged by the ordinary pass above.
+    if cfg.thorough && !crate::sanitize::is_subrun() && cfg.only_case.is_none() {
+        let eligible: Vec<(String, Value)> = planned.iter().filter(|(_, p)| !p.label.contains("deep-") && !p.label.contains("long-")).map(|(_, p)| (p.label.clone(), p.case.clone())).collect();
+        let pick = |n: usize| -> Vec<(String, Value)> {
+            let stride = (eligible.len() / n.max(1)).max(1);
+            eligible.iter().step_by(stride).take(n).cloned().collect()
+        };
+        match crate::sanitize::asan_bin() {
+            Some(bin) => crate::sanitize::replay_cases("asan", &bin.to_string_lossy(), &pick(6000), cfg.threads, &format!("{verif_dir}/.cache/sentry-asan"), Duration::from_secs(180), "C01", &mut stats),
+            None => stats.inconclusive.push("the AddressSanitizer build of the harness is not available (see .cache/asan-build.log)".into()),
+        }
+        match crate::sanitize::valgrind() {
+            Some(vg) => crate::sanitize::replay_cases("memcheck", &format!("{vg} {}", exe.to_string_lossy()), &pick(600), cfg.threads, &format!("{verif_dir}/.cache/sentry-memcheck"), Duration::from_secs(600), "C01", &mut stats),
+            None => stats.inconclusive.push("valgrind is not available".into()),
+        }
+        stats.label("sanitizers", "asan");
+        stats.label("sanitizers", "memcheck");
+        crate::sanitize::miri_pass(cfg, 8, 3, &mut stats);
+    }
     for (_, p) in planned.iter().take(400).filter(|(_, p)| p.group == "signed-tamper").take(3) {
         stats.sample(json!({"label": p.label, "case": trim_case(&p.case)}));
     }
